@@ -1589,6 +1589,59 @@ def m_array_map(sim, st, c):
     return Array([sim.call_sync(st, c["args"][1], [e]) for e in arr.elems], c["ret_ty"])
 
 
+@model("std::cell::Cell::<T>::new")
+def m_cell_new(sim, st, c):
+    return Opaque("Cell", (c["args"][0],), c["ret_ty"])
+
+
+def _cell_ptr(sim, st, c):
+    p = sim.deref_value(st, c["args"][0])
+    cur = sim.expand(st, sim.read(st, p))
+    if isinstance(cur, Sym):
+        cur = Opaque("Cell", (Sym(cur.name + ".value", c["gargs"][0] if c.get("gargs") else None),), cur.ty)
+        sim.write(st, p, cur)
+    if not (isinstance(cur, Opaque) and cur.kind == "Cell"):
+        raise S.Unsupported("Cell op on %r" % (cur,))
+    return p, cur
+
+
+@pattern(r"^std::cell::Cell::<T>::(get|set|replace|take)$")
+def m_cell_op(sim, st, c):
+    """Cell<T>: interior mutability through a shared reference - the write is a real store (effects and purity rules see it)"""
+    p, cur = _cell_ptr(sim, st, c)
+    op = c["fn"]["name"]
+    if op == "get":
+        return cur.data[0]
+    st.effects.append(("cell_write", sim.obj_label(st, p)))
+    if op == "set":
+        sim.write(st, p, Opaque("Cell", (c["args"][1],), cur.ty))
+        return UNIT
+    if op == "replace":
+        sim.write(st, p, Opaque("Cell", (c["args"][1],), cur.ty))
+        return cur.data[0]
+    raise S.Unsupported("Cell::take")
+
+
+@pattern(r"^std::iter::Iterator::sum(::<.*>)?$|^<.* as std::iter::Iterator>::sum(::<.*>)?$")
+def m_iter_sum(sim, st, c):
+    it = as_iterator(sim, st, c["args"][0])
+    rt = c["ret_ty"]
+    acc = Const(0.0, rt) if S.is_float_ty(rt) else (Const(0, rt) if S.is_int_ty(rt) else None)
+    for _ in range(64):
+        it, x = step_any(sim, st, it)
+        if x is None:
+            if acc is None:
+                raise S.Unsupported("sum of an empty iterator of %s" % ty_str(rt))
+            return acc
+        if acc is None:
+            acc = x
+        elif S.is_int_ty(rt):
+            acc = int_add(acc, x, rt)
+        else:
+            acc = Term("Add", (acc, x), rt)
+    raise S.Unsupported("sum over more than 64 items")
+
+
 @pattern(r"^std::ops::RangeInclusive::<Idx>::new$")
 def m_range_incl_new(sim, st, c):
     return Opaque("RangeIncl", (c["args"][0], c["args"][1]), c["ret_ty"])
